@@ -442,11 +442,18 @@ func buildFieldType(ww *conversionVisitor, node sourcewalk.FieldNode) (*descript
 
 		if st.Float.ListRules != nil {
 			ww.file.ensureImport(j5ListAnnotationsImport)
-			proto.SetExtension(desc.Options, list_j5pb.E_Field, &list_j5pb.FieldConstraint{
+			constraint := &list_j5pb.FieldConstraint{
 				Type: &list_j5pb.FieldConstraint_Float{
 					Float: st.Float.ListRules,
 				},
-			})
+			}
+			if st.Float.Format == schema_j5pb.FloatField_FORMAT_FLOAT64 {
+				// the proto type is double, which has its own slot
+				constraint.Type = &list_j5pb.FieldConstraint_Double{
+					Double: st.Float.ListRules,
+				}
+			}
+			proto.SetExtension(desc.Options, list_j5pb.E_Field, constraint)
 		}
 
 		return desc, nil
